@@ -1194,3 +1194,36 @@ Proof. repeat split; vm_compute; reflexivity. Qed.
 Example C03_ex_union_syncml_crlf_needs_split_events :
   exs_two_trips (XmlFront.bs "BEGIN:VCARD" ++ [13; 10] ++ XmlFront.bs "END:VCARD") = Some (false, false, true).
 Proof. vm_compute. reflexivity. Qed.
+
+(* ... with the line ends delivered as events of their own (what Expat does after normalising CR LF to LF; xmlfront's text-split
+   invariance says pieces do not matter EXCEPT for a lone LF event, which the front end turns into CR LF in vObject data): the CR LF
+   case IS a fixed point - the second XML and the second WBXML are identical, as the C shows (props/C03: byte-identical second
+   iterations for CR LF in vCard data) *)
+Fixpoint split_lf (cur : EncWbxml.bytes) (t : EncWbxml.bytes) : list EncWbxml.bytes :=
+  match t with
+  | [] => match cur with [] => [] | _ => [rev cur] end
+  | c :: r => if c =? 10 then (match cur with [] => [] | _ => [rev cur] end) ++ [[10]] ++ split_lf [] r else split_lf (c :: cur) r
+  end.
+Fixpoint split_events (evs : list XmlFront.event) : list XmlFront.event :=
+  match evs with
+  | [] => []
+  | XmlFront.EvCharacters t :: r => map XmlFront.EvCharacters (split_lf [] t) ++ split_events r
+  | e :: r => e :: split_events r
+  end.
+Definition exs_two_trips_split (payload : EncWbxml.bytes) : option (bool * bool * bool) :=
+  match exs_trip (XmlFrontEvents.events_of exs_L (exs_root payload)) with
+  | Some (w1, x1) =>
+    match XmlRead.read_xml_auto x1 with
+    | XmlRead.ROk d =>
+      match exs_trip (split_events (events_of_info_ns d)) with
+      | Some (w2, x2) => Some (bytes_eqb x2 x1, bytes_eqb w2 w1, match EncWbxml.find_sub [13; 10] x1 with Some _ => true | None => false end)
+      | None => None
+      end
+    | _ => None
+    end
+  | None => None
+  end.
+Example C03_ex_union_syncml_crlf_fixed_point_with_split_events :
+  exs_two_trips_split (XmlFront.bs "BEGIN:VCARD" ++ [13; 10] ++ XmlFront.bs "VERSION:2.1" ++ [13; 10] ++ XmlFront.bs "END:VCARD") = Some (true, true, true) /\
+  exs_two_trips_split (XmlFront.bs "BEGIN:VCARD END:VCARD") = Some (true, true, false).
+Proof. split; vm_compute; reflexivity. Qed.
